@@ -8,7 +8,8 @@ def kx(s) -> str:
 
 SMALL_KEYS = ["a", "b", "k1", "key two"]
 HOSTILE_KEYS = ["", "x" * 4096, "tab\there", "nl\nhere", 'q"uote\\', "nul\x00byte", "../../etc/passwd", "/abs/path",
-                "CaSe", "case", "é", "é", "\U0001F600", "a\rb", " lead", "trail ", "\x7f\x1f"]
+                "CaSe", "case", "é", "é", "\U0001F600", "a\rb", " lead", "trail ", "\x7f\x1f",
+                "line\u2028sep", "para\u2029sep", "next\u0085line"]
 FAKE_SRIS = [hashes.sri("sha256", b"v1"), hashes.sri("sha256", b"v2"), hashes.sri("sha1", b"v1"),
              hashes.sri("sha512", b"v3"), hashes.sri("xxh3", b"v4"), hashes.sri("sha384", b"v5")]
 METAS = [None, True, 0, -1, 18446744073709551615, -9223372036854775808, "s", "q\"\\\n\t\u0001é\U0001F600", [], {},
@@ -30,7 +31,7 @@ def rand_meta(rng, depth=0):
     r = rng.random()
     if depth > 3 or r < 0.5:
         return rng.choice([None, True, False, rng.randrange(-5, 100), rng.randrange(-2**63, 2**64),
-                           "".join(rng.choice("ab \"\\\n\t\x01é中\U0001F600/") for _ in range(rng.randrange(0, 6)))])
+                           "".join(rng.choice("ab \"\\\n\t\x01é中\U0001F600/\u2028\u2029\u0085") for _ in range(rng.randrange(0, 6)))])
     if r < 0.75:
         return [rand_meta(rng, depth + 1) for _ in range(rng.randrange(0, 4))]
     return {"".join(rng.choice("abc\"\né") for _ in range(rng.randrange(0, 3))): rand_meta(rng, depth + 1)
